@@ -74,7 +74,7 @@ KANI_HARNESSES = {
                          "maybenot_on_events / maybenot_num_machines / maybenot_start (null arguments)", FFI2,
                          default_tag="C20.safety"),
     "k_ffi_on_events_empty": H("maybenot-ffi", "verif_proofs", "k_ffi_on_events_empty", "maybenot_on_events (ffi.rs)", FFI,
-                               bounded="an instance without machines (generator never used, all-zero value), batches of 0 or 1 event, Instant::now stubbed",
+                               bounded="an instance without machines (generator never used, all-zero value), two consecutive batches of 0 or 1 event, Instant::now stubbed",
                                default_tag="C20.safety"),
 }
 # not decidable with Kani 0.68 and therefore not claimed: geometric (constructor loop over the symbolic
